@@ -164,6 +164,12 @@ fn transforms() -> Vec<(&'static str, Matrix4<f32>)> {
         ("rotation", Matrix4::new_rotation(Vector3::new(0.3, -0.2, 0.5))),
         ("non-uniform scale", Matrix4::new_nonuniform_scaling(&Vector3::new(1.25, 0.8, 1.0))),
         ("small translation", Matrix4::new_translation(&Vector3::new(0.05, -0.04, 0.03))),
+        // camera perspective as the CLI demo builds it: bottom row (0, 0, p, 1)
+        ("perspective", {
+            let mut m = Matrix4::identity();
+            m[(3, 2)] = 0.3;
+            m
+        }),
     ]
 }
 
@@ -265,6 +271,8 @@ fn reference(p: &Prog, m: &Matrix4<f32>, depth: u8) -> Option<RefInfo> {
     let h = 2.0 / g as f64;
     let mut inside = 0u64;
     let mut crossings = 0u64;
+    let det4 = m64.determinant().abs();
+    let mut vol_sum = 0.0f64;
     let idx = |i: usize, j: usize, k: usize| (i * g + j) * g + k;
     let mut neg = vec![false; g * g * g];
     for i in 0..g {
@@ -274,6 +282,10 @@ fn reference(p: &Prog, m: &Matrix4<f32>, depth: u8) -> Option<RefInfo> {
                 if value(p, to_model(w)) < 0.0 {
                     inside += 1;
                     neg[idx(i, j, k)] = true;
+                    // volume element of the (possibly projective) map at this cell:
+                    // |det M| / w^4
+                    let wq = m64[(3, 0)] * w[0] + m64[(3, 1)] * w[1] + m64[(3, 2)] * w[2] + m64[(3, 3)];
+                    vol_sum += det4 / wq.powi(4);
                 }
             }
         }
@@ -328,11 +340,13 @@ fn reference(p: &Prog, m: &Matrix4<f32>, depth: u8) -> Option<RefInfo> {
             }
         }
     }
-    let det = m64.fixed_view::<3, 3>(0, 0).determinant().abs();
-    // linear scale factor for areas (geometric mean of the scaling)
+    let _ = inside;
+    // linear scale factor for areas (geometric mean of the scaling; for a
+    // projective map the mean volume element over the shape)
+    let det = if inside > 0 { vol_sum / inside as f64 } else { det4 };
     let lin = det.powf(2.0 / 3.0);
     let (amb, zero_on_lattice) = ambiguous_face(&|w| value(p, to_model(w)), depth);
-    Some(RefInfo { volume: inside as f64 * h * h * h * det, area: crossings as f64 * h * h * lin, resolved, ambiguous_face: amb, zero_on_lattice })
+    Some(RefInfo { volume: vol_sum * h * h * h, area: crossings as f64 * h * h * lin, resolved, ambiguous_face: amb, zero_on_lattice })
 }
 
 /// Computed only when a degenerate triangle is found (it is expensive): does
@@ -488,7 +502,7 @@ fn mesh_case<F: Backend + RenderHints>(
     }
     let class_for = |kind: &str| -> &'static str {
         let Some(i) = &info else { return "" };
-        if kind.starts_with("degenerate triangle (two corners") {
+        if kind.starts_with("degenerate triangle (two corners") || kind.starts_with("non-finite vertex") {
             let (on_lattice, nondiff) = if i.zero_on_lattice { (true, false) } else { lattice_degeneracy(&s.prog, m, depth) };
             if on_lattice {
                 return ZERO;
@@ -562,6 +576,9 @@ fn mesh_case<F: Backend + RenderHints>(
                 let cell = 2.0f64.powi(1 - depth as i32) * 1.25;
                 let area = st.area.max(info.as_ref().map(|i| i.area).unwrap_or(0.0));
                 let tol = 0.5 * area * cell + 1e-3;
+                if !mesh.triangles.is_empty() && area > 0.0 {
+                    cx.max("max_volume_error_in_thousandths_of_area_x_cell", (1000.0 * (st.volume - vref).abs() / (area * cell)) as u64);
+                }
                 if mesh.triangles.is_empty() && vref > tol.max(8.0 * cell.powi(3)) {
                     cx.violation(
                         format!("{} mesh: empty although the shape has volume{}", F::NAME, class_for("volume")),
